@@ -1419,12 +1419,12 @@ func (e *Engine) WritePointsWithContext(ctx context.Context, points []models.Poi
 
 	// if requested, store points written stats
 	if pointsWritten, ok := ctx.Value(tsdb.StatPointsWritten).(*int64); ok {
-		*pointsWritten = npoints
+		atomic.StoreInt64(pointsWritten, npoints)
 	}
 
 	// if requested, store values written stats
 	if valuesWritten, ok := ctx.Value(tsdb.StatValuesWritten).(*int64); ok {
-		*valuesWritten = nvalues
+		atomic.StoreInt64(valuesWritten, nvalues)
 	}
 
 	return seriesErr
